@@ -66,6 +66,15 @@ def run(ctx):
     ]
 
 
+def selftest(ctx):
+    build_harness()
+    ev = ctx.work / "st-files.ndjson"
+    vh(["c19-files", "seed=5", "n=300", f"out={ev}"])
+    selftest_calls(ctx, "delivery-corrupted", "Trace_TexInput", "Trace_TexInput_dev.cfg", ev,
+                   lambda e: dict(e, out=e["out"][:-1]) if e["out"] and not e["err"] else None)
+    ctx.cov["rule"] = "selftest: corrupted recordings must be rejected, originals accepted"
+
+
 def replay(path):
     r = json.load(open(path))
     print(json.dumps(r, indent=1)[:3000])
